@@ -10,6 +10,7 @@ SHARDED = True
 
 class C07Machine(StoreMachine):
     NONTRIVIAL_FLAGS = {'old_read_after_add_in_append', 'reload_after_eviction', 'two_reopens'}
+    ENABLE_BLOCKED_FIRST = True  # "length = number of successful additions": an unsuccessful first one must not count or derail
 
 
 def run(ctx: core.Ctx):
